@@ -198,6 +198,9 @@ def run_case(ctx, case):
         srv = rig.Server(d + '/db.sqlite')
         try:
             objs = store.populate(srv, rng, n=10)
+            k_ = store.register(srv, 'sym', 'alice', rng, state='active', names=['c13-active'])
+            if k_ is not None:
+                objs.append(k_)
             focus = list(objs)
             steps = 260
             for step in range(steps):
